@@ -214,7 +214,7 @@ var errInjectedWrap = errors.New("injected")
 // corrFailfs: FailFS with no failure function ≟ its base (twin instance), and single-fault plans.
 func corrFailfs(seed uint64, tier string, replay []string) *lib.Result {
 	res := &lib.Result{Property: "C12",
-		Rule: "random histories — and the bounded-exhaustive scenarios file-admin (all), dir-handle and namespace (every 7th) of small.go — through FailFS over MemFS, in lockstep with a twin MemFS driven directly: (1) no failure function: outcomes and node graphs equal after every call; (2) for every history every plan 'fail the k-th consulted primitive' (k over all consultations of the history, exhaustive per history): the failing call returns exactly the injected error and leaves the base untouched, earlier calls behave as on the base, and when the failed primitive is the first of its call all LATER calls (on handles too) behave as in the history without that call; (3) ReadOnlyFunc: the base never changes; (6) with a failure function that refuses everything, every call of the history (issued on the state the history has reached) returns the injected error and leaves the base unchanged; (5) every composite call of the history (Create, WriteFile, ReadFile, ReadDir, MkdirTemp) that succeeds without faults is re-run with EVERY invocation of a primitive it is built on (Mkdir / OpenFile / FileWrite / FileRead / FileReadDir) made to fail: it must return the injected error, and leave the base unchanged when the primitive is its first; (4) announcement: with a second FailFS between the wrapper and the base, the primitives that reach the lower layer during each call (temp-name calls included) are exactly those shown to the upper failure function; a case is one call under one plan; distinct non-trivial = distinct (call kind, outcome, plan kind)"}
+		Rule: "random histories — and the bounded-exhaustive scenarios file-admin (all), dir-handle and namespace (every 7th) of small.go — through FailFS over MemFS, in lockstep with a twin MemFS driven directly: (1) no failure function: outcomes and node graphs equal after every call; (2) for every history every plan 'fail the k-th consulted primitive' (k over all consultations of the history, exhaustive per history): the failing call returns exactly the injected error and leaves the base untouched, earlier calls behave as on the base, and when the failed primitive is the first of its call all LATER calls (on handles too) behave as in the history without that call; (3) ReadOnlyFunc: the base never changes, for the history and for OpenFile with every flag combination of the generator's list on an existing file with content, a missing name and a directory; (6) with a failure function that refuses everything, every call of the history (issued on the state the history has reached) returns the injected error and leaves the base unchanged; (5) every composite call of the history (Create, WriteFile, ReadFile, ReadDir, MkdirTemp) that succeeds without faults is re-run with EVERY invocation of a primitive it is built on (Mkdir / OpenFile / FileWrite / FileRead / FileReadDir) made to fail: it must return the injected error, and leave the base unchanged when the primitive is its first; (4) announcement: with a second FailFS between the wrapper and the base, the primitives that reach the lower layer during each call (temp-name calls included) are exactly those shown to the upper failure function; a case is one call under one plan; distinct non-trivial = distinct (call kind, outcome, plan kind)"}
 	st := lib.NewStats()
 	nh, nl := 60, 25
 	if tier == "thorough" {
@@ -574,6 +574,28 @@ func corrFailfs(seed uint64, tier string, replay []string) *lib.Result {
 			if i > 0 && d3[i] != d3[i-1] {
 				report("failfs.readonly-changed."+f[2], fmt.Sprintf("with ReadOnlyFunc the call %q changed the base (%q)", hist[i], o3[i]), hist[:i+1], o3[i])
 				break
+			}
+		}
+		if k == 0 && replay == nil {
+			// (3') ReadOnlyFunc and EVERY flag combination of OpenFile, on an existing file with content and on a
+			// missing name: the base never changes
+			base := memfs.New()
+			prefill(base, lib.NewRng(1))
+			ff := failfs.New(base)
+			_ = ff.SetFailFunc(failfs.ReadOnlyFunc)
+			w := newFsOn(ff)
+			var h3 lib.History
+			for _, fl := range openFlags {
+				for _, pth := range []string{"/a/big", "/a/newname", "/a/b"} {
+					l := fmt.Sprintf("fs 0 openfile %s %d 420", lib.Hex(pth), fl)
+					before := rawDump(base)
+					o := w.call(l)
+					h3 = append(h3, l)
+					st.Count("openfile|"+lib.OutcomeClass(o)+"|readonly-flags", fmt.Sprintf("openfile|readonly|%d|%s", fl, lib.OutcomeClass(o)))
+					if rawDump(base) != before {
+						report("failfs.readonly-changed.openfile-flags", fmt.Sprintf("with ReadOnlyFunc %q (flag %#x) changed the base (%q)", l, fl, o), h3, o)
+					}
+				}
 			}
 		}
 		if replay != nil {
